@@ -996,3 +996,12 @@ Lemma alphabet_is_table1 :
                           | None => if c =? rfc_pad then SPad else SBad
                           end).
 Proof. split; [exact alpha_rfc | exact classify_spec]. Qed.
+
+(* the encoding is injective on byte strings *)
+Theorem b64_encode_injective (a b : list N) :
+  Forall is_byte a -> Forall is_byte b -> encode a = encode b -> a = b.
+Proof.
+  intros Ha Hb E.
+  destruct (decode_encode a Ha) as (s & Ea & Da). destruct (decode_encode b Hb) as (s' & Eb & Db).
+  rewrite E, Eb in Ea. inversion Ea; subst. rewrite Da in Db. now inversion Db.
+Qed.
